@@ -334,3 +334,57 @@ PROPS['C12'] = dict(
     level_note='Trusted: GMP, the harness Gaussian elimination, the row formulation transcribed from the statement. Armadillo adapter not exercised (library not installed).',
     assumptions=[EXACT, SAN, 'backward-error level is read norm-wise (DESIGN 6.5)'],
 )
+
+def c16_variants_unit():
+    """C16 configuration dimension: self-checks on/off must give byte-identical values; -O0/-O2/-O3 with g++ and clang++ must each satisfy the bound."""
+    FL = lambda name, kind, extra=None: T(name, kind=kind, src=['harness/h_float.cpp'], parts=4, deps=['harness/expr_common.h'], extra_flags=extra or [])
+    base = FL('h_float', 'asan')
+    chk = FL('h_float_checks', 'asan_checks')
+    variants = [FL('h_float_gxx_O0', 'plain', ['-O0']), FL('h_float_gxx_O2', 'plain', ['-O2']), FL('h_float_gxx_O3', 'plain', ['-O3']), FL('h_float_clang_O3', 'clangplain', ['-O3'])]
+    def run(u, tier, res, env):
+        chkmod = _sys.modules['__main__']
+        BUILD, SEED = env['BUILD'], env['SEED']
+        # (1) transcripts with and without BSPLINE_ADD_TEST_CHECKS
+        outs = []
+        for t in (base, chk):
+            exe, bl = env['build'](t)
+            if exe is None:
+                res.notes.append('BUILD-FAILED %s log=%s' % (t['name'], bl)); res.extra.setdefault('build_failures', []).append(bl); return
+            tr = _os.path.join(BUILD, 'transcript-%s-%d.txt' % (t['name'], _os.getpid()))
+            e = dict(_os.environ, VERIF_TRANSCRIPT=tr)
+            rc, so, se, w = env['run_proc']([exe, '--seed', str(SEED * 77 + 5), '--scale', '0.5' if tier == 'quick' else '3.0'], timeout=3600, env=e)
+            outs.append((tr, rc))
+        same = all(rc == 0 for _, rc in outs) and open(outs[0][0], 'rb').read() == open(outs[1][0], 'rb').read()
+        nlines = sum(1 for _ in open(outs[0][0])) if _os.path.exists(outs[0][0]) else 0
+        res.extra['selfcheck_differential'] = dict(cases=nlines, byte_identical=bool(same))
+        if not same and all(rc == 0 for _, rc in outs):
+            dst = _os.path.join(env['REPLAYS'], 'C16-selfcheck-transcripts-differ.txt')
+            a = open(outs[0][0]).read().splitlines(); b = open(outs[1][0]).read().splitlines()
+            with open(dst, 'w') as f:
+                f.write('property: C16\nreason: values differ between builds with and without BSPLINE_ADD_TEST_CHECKS\n')
+                for x, y in zip(a, b):
+                    if x != y:
+                        f.write('without: %s\nwith:    %s\n' % (x, y)); break
+            res.candidates.append((['/bin/false'], dst, 'values depend on BSPLINE_ADD_TEST_CHECKS', None))
+        for tr, _ in outs:
+            if _os.path.exists(tr): _os.unlink(tr)
+        # (2) optimisation levels / compilers
+        for t in variants if tier == 'thorough' else variants[1:2]:
+            chkmod.run_unit(dict(target=t, quick=dict(scale=0.5), thorough=dict(scale=2.0, shards=4)), tier, res, 'C16-' + t['name'])
+        res.extra['optimisation_variants'] = [t['name'] for t in (variants if tier == 'thorough' else variants[1:2])]
+    return dict(custom=run, prebuild=[base, chk] + variants, prebuild_quick=[base, chk, variants[1]])
+
+PROPS['C16'] = dict(
+    units=[dict(target=T('h_float', parts=4, deps=['harness/expr_common.h']), quick=dict(scale=1.0), thorough=dict(scale=6.0, shards=16)),
+           dict(target=T('h_gen', parts=4), quick=dict(args=['--prefix', 'float-types', '--property', 'C16'], scale=1.0), thorough=dict(args=['--prefix', 'float-types', '--property', 'C16'], scale=6.0, shards=8)),
+           dict(target=T('h_eval', parts=4), quick=dict(args=['--prefix', 'eval-float', '--property', 'C16'], scale=1.0), thorough=dict(args=['--prefix', 'eval-float', '--property', 'C16'], scale=4.0, shards=8)),
+           c16_variants_unit()],
+    rule=('the statement\'s well-scaled domain, constructed: grid points k/8 with |x| <= 8, gaps >= 1/8 (classes: near origin, FAR from origin with minimal gaps, strongly non-uniform), orders <= 6 incl. growth, dyadic coefficients and scalars |v| <= 8, so every input is exactly representable in all types. '
+          'Each case is ONE library operation (a+b, a-b incl. cancelling pairs, a*b, a*c, a/c, linearCombination, Dx<0..4>, X<0..2>, evaluation, LinearForm / BilinearForm / application of 8 operator expressions incl. spline factor and commutator) executed in Q and in float/double/long double; '
+          'plus whole B-spline generation (orders 0..6, all multiplicity shapes) and evaluation incl. one ulp around grid points. Error measure E = sum_k |c_fl - c_exact| h^k per interval (|v_fl - v_exact| for scalars), bound 2^20 * eps * S, S = absolute-value shadow (same formula on |coefficients|, (|u|+|xm|)^n for X<n>). '
+          'Configuration: transcripts of all values (hex-float) with and without BSPLINE_ADD_TEST_CHECKS must be byte-identical; g++ -O0/-O2/-O3 and clang++ -O3 builds must satisfy the same bound. Observed maxima (log2 of eps units) are reported in metrics_max. Non-trivial: order >= 2 and (|x| >= 4 or gap ratio >= 8 or cancelling operands).'),
+    technique='rapidcheck generation in the well-scaled domain; differential against the exact rational run of the same operation with an absolute-value shadow bound; configuration differential (self-checks on/off, optimisation levels, two compilers)',
+    level_text='Generated-input search with an exact reference and a stated bound with measured head-room (> 2^13 on the unchanged tree); the far-from-origin / minimal-gap class, where a computation about a distant point costs 2^21..2^42, is weighted explicitly. Sampling, not proof.',
+    level_note='The statement does not define "terms involved"; the absolute-value shadow in midpoint coordinates is used (DESIGN 6.6). Exact results come from the library instantiated with Q, itself verified by C01-C07.',
+    assumptions=[EXACT, 'IEEE-754 arithmetic, no -ffast-math; x87 long double'],
+)
